@@ -1665,8 +1665,19 @@ func main() {
 		h.runFn(f)
 	}
 	rep.Extra["gomacro_seconds"] = time.Since(tG).Seconds()
-	wd.Beat("waiting for the oracle build")
-	res := <-orc
+	// the wait for `go build` is not the implementation's time: keep the watchdog quiet, bound the wait separately
+	var res *oracleResult
+	for waited := 0; res == nil; waited += 10 {
+		wd.Beat("waiting for the oracle build")
+		select {
+		case res = <-orc:
+		case <-time.After(10 * time.Second):
+			if waited > 1500 {
+				fmt.Fprintln(os.Stderr, "c01: HARNESS DEFECT: the oracle build/run did not finish within 25 minutes")
+				os.Exit(2)
+			}
+		}
+	}
 	if res.err != nil {
 		fmt.Fprintln(os.Stderr, "c01: HARNESS DEFECT:", res.err)
 		fmt.Fprintln(os.Stderr, res.stderr)
